@@ -135,3 +135,21 @@ Proof.
   - exact Fa.
   - eexists. split; [left; reflexivity|vm_compute; reflexivity].
 Qed.
+
+(** parseNameExtended: an accepted extended name has a supported scheme and is either digest-only (the zero Name)
+    or fully qualified *)
+Lemma main_C13_extended_name mask s scheme n d :
+  r_parse_name_extended mask s = Ok (scheme, n, d) ->
+  r_supported_scheme scheme = true /\ ((n = n_empty /\ d <> None) \/ n_is_fq n = true).
+Proof.
+  unfold r_parse_name_extended, r_parse_name. destruct (r_split_extended s) as [[sc name] digest].
+  destruct (r_supported_scheme (or_str sc s_https)) eqn:Es; cbn [negb]; [|discriminate].
+  destruct (nonempty digest).
+  - destruct (b_parse_digest digest) as [sum|e|]; try discriminate.
+    destruct (nonempty name).
+    + destruct (n_is_fq (n_merge (n_parse name) mask)) eqn:Ef; [|discriminate].
+      intros [= <- <- <-]. split; [exact Es|right; exact Ef].
+    + intros [= <- <- <-]. split; [exact Es|left; split; [reflexivity|discriminate]].
+  - destruct (n_is_fq (n_merge (n_parse name) mask)) eqn:Ef; [|discriminate].
+    intros [= <- <- <-]. split; [exact Es|right; exact Ef].
+Qed.
